@@ -86,6 +86,11 @@ func (e *Exec) instr(f *frame, st *State, ins ssa.Instruction) bool {
 		} else {
 			f.vals[x] = Val{Ty: tyOfGo(x.Type()), Addr: a}
 		}
+		if v.Guard != nil && v.Guard.Elem {
+			bv := f.vals[x]
+			bv.Guard = v.Guard
+			f.vals[x] = bv
+		}
 	case *ssa.Index:
 		v := e.value(f, x.X)
 		i := e.value(f, x.Index)
@@ -140,9 +145,17 @@ func (e *Exec) instr(f *frame, st *State, ins ssa.Instruction) bool {
 				if !isAtom(pp) {
 					pp = e.defOrInline(e.S.freshName(f.prefix+x.Name()+".ok"), "Bool", pp)
 				}
+				if g := elemGuard(v, mt); g != nil {
+					vv.Guard = g
+				}
 				f.vals[x] = Val{Tuple: []Val{vv, {T: pp, Ty: tyBool}}, Ty: tyOfGo(x.Type())}
 			} else {
 				e.bind(f, x, val)
+				if g := elemGuard(v, mt); g != nil {
+					bv := f.vals[x]
+					bv.Guard = g
+					f.vals[x] = bv
+				}
 			}
 		} else {
 			// string index
@@ -229,6 +242,7 @@ func (e *Exec) instr(f *frame, st *State, ins ssa.Instruction) bool {
 		a := e.addrOf(p)
 		e.frameCheckStore(f, st, a, x)
 		e.guardAccess(f, st, a, true, x)
+		e.guardElemAccess(f, st, p, a, true, x)
 		e.store(st, a, v)
 	case *ssa.TypeAssert:
 		e.execTypeAssert(f, st, x)
@@ -318,6 +332,7 @@ func (e *Exec) execUnOp(f *frame, st *State, x *ssa.UnOp) {
 		val := e.load(st, a)
 		val.Ty = retype(val.Ty, x.Type())
 		tag := e.guardAccess(f, st, a, false, x)
+		e.guardElemAccess(f, st, v, a, false, x)
 		e.bind(f, x, val)
 		if tag != nil {
 			bv := f.vals[x]
@@ -735,3 +750,32 @@ func (e *Exec) heldTerm(st *State, lock string) string {
 }
 
 const noLocks = "((as const (Array Int Bool)) false)"
+
+
+// elemGuard: an object whose reference is read out of a guarded map (map[K]*T) is protected by the
+// map's lock as long as it is reachable only through the map: accesses to its fields through that
+// reference need the lock too (read lock to read, write lock to write).
+func elemGuard(m Val, mt *types.Map) *GuardTag {
+	if m.Guard == nil || m.Guard.Lock == "" {
+		return nil
+	}
+	if _, ok := mt.Elem().Underlying().(*types.Pointer); !ok {
+		return nil
+	}
+	return &GuardTag{Lock: m.Guard.Lock, Obj: m.Guard.Obj, What: m.Guard.What + "[]", Decl: m.Guard.Decl, Elem: true}
+}
+
+func (e *Exec) guardElemAccess(f *frame, st *State, addr Val, a *Addr, write bool, ins ssa.Instruction) {
+	if addr.Guard == nil || !addr.Guard.Elem || a == nil || a.Heap == "" {
+		return
+	}
+	held := e.heldTerm(st, addr.Guard.Lock)
+	kind := "read"
+	if write {
+		kind = "write"
+	} else {
+		held = or(held, e.rheldTerm(st, addr.Guard.Lock))
+	}
+	local := app(">", a.Obj, e.top.entryTop)
+	e.oblig(st, "guard", addr.Guard.What+"."+strings.TrimPrefix(a.Heap, "F.")+"."+kind, or(local, held), "access to an object held in a guarded map while the map's lock is held", e.position(ins.Pos()))
+}
